@@ -299,6 +299,10 @@ func histMain(args []string) {
 
 func runHistory(idx []int) ([]c16Obs, error) {
 	bin, _ := os.Executable()
+	return runHistoryBin(bin, idx)
+}
+
+func runHistoryBin(bin string, idx []int) ([]c16Obs, error) {
 	cmd := exec.Command(bin, "hist")
 	in, _ := json.Marshal(idx)
 	cmd.Stdin = bytes.NewReader(in)
@@ -330,6 +334,7 @@ func c16RunCase(c *Ctx, raw []byte) string {
 }
 
 var c16Refs map[int]c16Obs
+var c16DetSeen int
 
 func c16Exec(c *Ctx, cs c16Case, _ interface{}) string {
 	alpha := c16Alphabet()
@@ -356,6 +361,30 @@ func c16Exec(c *Ctx, cs c16Case, _ interface{}) string {
 	if err != nil {
 		c.Violate(Violation{Oracle: "history-independence", Class: "process-death", Detail: err.Error(), Features: map[string]string{"symptom": "process-death"}, Case: cs})
 		return "process-death"
+	}
+	// conformance: a history made of calls whose answer does not depend on map iteration order gives the same
+	// observations on the un-instrumented build (every fifth such history)
+	det := true
+	for _, i := range cs.History {
+		a := alpha[i]
+		if !(a.Variant == 2 || a.Fn == "ResolveRefWithBase" || a.Fn == "ResolveParameter" || a.Fn == "meta-resolve" || a.Fn == "id-expand") {
+			det = false
+		}
+	}
+	if det && !c.replay {
+		c16DetSeen++
+		if light := os.Getenv("VERIF_LIGHT_BIN"); light != "" && c16DetSeen%5 == 1 {
+			lobs, lerr := runHistoryBin(light, cs.History)
+			if lerr != nil || len(lobs) != len(obs) {
+				panic(harnessBug{fmt.Sprintf("history %v on the plain build: %v", cs.Names, lerr)})
+			}
+			for k := range obs {
+				if lobs[k].Out != obs[k].Out || lobs[k].Err != obs[k].Err || fmt.Sprint(lobs[k].Loads) != fmt.Sprint(obs[k].Loads) {
+					panic(harnessBug{fmt.Sprintf("instrumented build diverges from the plain build on call %d of history %v:\n instr: %s %s\n plain: %s %s", k+1, cs.Names, tail(obs[k].Out, 200), obs[k].Err, tail(lobs[k].Out, 200), lobs[k].Err)})
+				}
+			}
+			c.Res.Validated++
+		}
 	}
 	for k, o := range obs {
 		ref := c16Refs[cs.History[k]]
